@@ -162,6 +162,7 @@ func (m *Machine) runBlocks(fr *Frame, start *ssa.BasicBlock) Value {
 			}
 			fr.loops[next]++
 			if fr.loops[next] > m.eng.cfg.Unwind {
+				m.onUnwind(fr)
 				panic(&pathAbort{kind: "unwind", reason: fmt.Sprintf("loop bound %d exceeded at %s (%s)", m.eng.cfg.Unwind, fr.site, fr.fn.String())})
 			}
 		} else if fr.loops != nil && fr.loops[next] > 0 {
@@ -1185,6 +1186,15 @@ func (m *Machine) callFunction(fn *ssa.Function, args []Value, caps []Value, pos
 	if h, ok := intrinsics[name]; ok {
 		m.funcs["intrinsic:"+name]++
 		return h(m, fn, args)
+	}
+	if fn.Name() == "String" && fn.Signature.Recv() != nil && fn.Signature.Params().Len() == 0 && fn.Pkg != nil {
+		// String() of SDK numeric / coin types only feeds logs, events and error texts: opaque,
+		// deterministic function of the value (formatting code forks heavily and decides nothing)
+		switch fn.Pkg.Pkg.Path() {
+		case "github.com/cosmos/cosmos-sdk/types", "cosmossdk.io/math":
+			m.funcs["intrinsic:opaque-String:"+name]++
+			return m.opaqueFmt(name, args[0])
+		}
 	}
 	if fn.Pkg != nil && fn.Name() == "init" && fn.Signature.Recv() == nil && fn.Parent() == nil {
 		m.runInit(fn.Pkg) // package initialisers run once, under the engine's init policy
